@@ -32,14 +32,14 @@ def lru_cache(user_function):
     cache = {}
 
     @wraps(user_function)
-    def wrapper(*args):
-        key = tuple(args)
+    def wrapper(*args, **kwargs):
+        key = tuple(args) + tuple(sorted(kwargs.items()))
         if key not in cache:
             # Validate we didn't exceed the max_size:
             if len(cache) >= _max_size:
                 cache.popitem()
                 # cache.clear()
-            cache[key] = user_function(*args)
+            cache[key] = user_function(*args, **kwargs)
         return cache[key]
 
     def cache_clear():
@@ -62,7 +62,7 @@ def lru_kw_cache(user_function):
     @wraps(user_function)
     def wrapper(*args, **kwargs):
         #return user_function(*args, **kwargs)
-        key = tuple(args) + tuple(kwargs)
+        key = tuple(args) + tuple(sorted(kwargs.items()))
         if key not in cache:
             #stats[1] += 1  # miss
             # Validate we didn't exceed the max_size:
@@ -106,7 +106,7 @@ def hit_cache(user_function):
 
     @wraps(user_function)
     def wrapper(*args, **kwargs):
-        key = tuple(args) + tuple(kwargs)
+        key = tuple(args) + tuple(sorted(kwargs.items()))
         if key not in cache:
             # Validate we didn't exceed the max_size:
             if len(cache) >= _max_size:
